@@ -254,6 +254,31 @@ CLAIMED = {
               "re-rendering, not proved). Values without a pnet name print as 'unknown' and are compared as one class. "
               "Frames on which reply() panics are out of scope (C01). Timestamps are not part of the property."),
         technique="Coq theorem via event-carrying factorisation + rendering lemma + real-logger correspondence with strict parsers"),
+    "C16": dict(
+        text=("Coq theorems over the model of the ONC-RPC responder and of proto::repl: for every well-formed call record "
+              "(all xids, programs, versions, procedures, credential and verifier bodies of any length, padded per XDR) "
+              "serialised by an independent reference encoder (RFC 5531/4506), followed by arbitrary bytes, over UDP and "
+              "behind a record mark over TCP, for every contacted address (4 or 16 octets) and port: the byte-at-a-time "
+              "parser ends in End with the call's fields exactly at offset 40+|cred| and not before; the reply, read back "
+              "by an independent strict XDR reader (alignment, zero padding, booleans, whole message consumed), is the "
+              "accepted reply with the same XID and a null verifier that the property's precedence order prescribes "
+              "(PROG_MISMATCH(2,4) / void success / GETPORT port / GETADDR universal address / DUMP list of three mappings "
+              "with netid tcp|tcp6 by IP version / PROC_UNAVAIL / PROG_UNAVAIL); over TCP it is framed by a last-fragment "
+              "record mark whose length is the reply's; message types other than CALL and truncated calls get nothing; the "
+              "statements hold at proto::repl under the hypothesis that the matcher identified the payload; no accumulator "
+              "overflow and no read_string underflow is reachable from a fresh parser. Tied to /repo by differential "
+              "execution (all 256 programs, versions, procedures, credential/verifier lengths incl. unpadded ones, both "
+              "transports and IP versions, IPv6 text corner cases) and by evaluating the extracted monitor on the "
+              "implementation's replies."),
+        design="DESIGN.md section 5, C16",
+        note=("Trusted: Coq kernel/vm_compute, extraction + OCaml driver, harness; correspondence is testing. Identification "
+              "is a hypothesis of the theorems: in-scope calls that the compiled matcher does not identify (first byte "
+              "G P H D C O T S 0x00 over UDP, XID starting with 0x00 over TCP) are the known class rpc_shadowed (C10 "
+              "finding), decided by an extracted predicate and refuted by a kernel-computed witness. Partial: the IPv6 "
+              "address text (Rust Display rules) is shared between model and specification and validated by correspondence "
+              "and by the harness' independent parser only; the IPv4 text has a proved round trip through an independent "
+              "reader. Fixed finding: PROC_UNAVAIL was sent as 5 (SYSTEM_ERR)."),
+        technique="Coq theorems (parser correctness, encoder/decoder round trip, dispatch) + extracted monitor on implementation output + model/implementation correspondence"),
 }
 
 ALL = ["C%02d" % i for i in range(1, 21)]
